@@ -19,6 +19,8 @@ type Shape struct {
 	Inline     bool   // inline data on some descriptor
 	BlobEntry  bool   // index carries a blob-typed entry
 	Referrers  int    // referrers to the top manifest
+	ChildRefs  int    // referrers attached to manifests below the top (platform images, nested indexes)
+	ChildDTags int    // digest tags attached to manifests below the top
 	RefOfRef   bool   // a referrer of the first referrer
 	DigestTags int    // sha256-<hex>.suffix style tags pointing to extra images
 	Foreign    bool   // a foreign layer with URLs not hosted by the source
@@ -27,8 +29,8 @@ type Shape struct {
 
 // Key is a short shape-class string for distinct counting.
 func (s Shape) Key() string {
-	return fmt.Sprintf("%s/%s/p%d/l%d/sh%t/du%t/em%t/in%t/be%t/r%d/rr%t/dt%d/fo%t", s.Family, s.Kind, s.Platforms, s.Layers,
-		s.Share, s.DupLayer, s.EmptyBlob, s.Inline, s.BlobEntry, s.Referrers, s.RefOfRef, s.DigestTags, s.Foreign)
+	return fmt.Sprintf("%s/%s/p%d/l%d/sh%t/du%t/em%t/in%t/be%t/r%d/rr%t/dt%d/fo%t/cr%d/cd%d", s.Family, s.Kind, s.Platforms, s.Layers,
+		s.Share, s.DupLayer, s.EmptyBlob, s.Inline, s.BlobEntry, s.Referrers, s.RefOfRef, s.DigestTags, s.Foreign, s.ChildRefs, s.ChildDTags)
 }
 
 // RandomShape draws a shape.
@@ -41,9 +43,15 @@ func RandomShape(rng *rand.Rand) Shape {
 	if rng.Intn(3) == 0 {
 		s.Referrers = 1 + rng.Intn(3)
 		s.RefOfRef = rng.Intn(3) == 0
+		if rng.Intn(2) == 0 {
+			s.ChildRefs = 1 + rng.Intn(2)
+		}
 	}
 	if rng.Intn(5) == 0 {
 		s.DigestTags = 1 + rng.Intn(2)
+		if rng.Intn(2) == 0 {
+			s.ChildDTags = 1
+		}
 	}
 	if s.Kind == "schema1" {
 		s.Family = "docker"
@@ -170,6 +178,27 @@ func Random(rng *rand.Rand, alg string, s Shape, topTag string) *Graph {
 		cfg := g.BlobBytes("config", la.MTOCIEmpty, []byte("{}"))
 		l := g.Blob("layer", "application/vnd.example.payload", 10+rng.Intn(200))
 		g.Image(cfg, []*Node{l}, ImageOpts{Family: "oci", Subject: firstRef, ArtifactType: "application/vnd.example.sig"})
+	}
+	// referrers / digest tags of manifests below the top
+	var below []*Node
+	for _, id := range g.Closure(top.ID) {
+		if n := g.Nodes[id]; n.IsManifest() && id != top.ID && n.Kind != "schema1" {
+			below = append(below, n)
+		}
+	}
+	for i := 0; i < s.ChildRefs && len(below) > 0; i++ {
+		subj := below[rng.Intn(len(below))]
+		cfg := g.BlobBytes("config", la.MTOCIEmpty, []byte("{}"))
+		l := g.Blob("layer", "application/vnd.example.payload", 10+rng.Intn(200))
+		g.Image(cfg, []*Node{l}, ImageOpts{Family: "oci", Subject: subj, ArtifactType: []string{"application/vnd.example.sig", "application/vnd.example.sbom"}[i%2],
+			Annotations: map[string]string{"org.example.child": fmt.Sprint(i)}})
+	}
+	for i := 0; i < s.ChildDTags && len(below) > 0; i++ {
+		subj := below[rng.Intn(len(below))]
+		p := platforms[0]
+		im := image(20+i, &p, nil, "", nil)
+		alg, enc, _ := la.SplitDigest(subj.Digest)
+		g.Tags[fmt.Sprintf("%s-%s.%s", alg, enc, "sig")] = im.ID
 	}
 	for i := 0; i < s.DigestTags; i++ {
 		p := platforms[0]
